@@ -200,7 +200,36 @@ func checkC02(c *fw.Ctx) {
 				}
 			}
 		}
-		c.Check(ok, "5 ListKeyIDs", "ListKeyIDs lists signatures[signingName]", c.P.Pos(fn.Pos()), "", "key ids are not read from the entry of the signing name parameter")
+		// the lookup may sit in a helper or method that receives the name (in a request object):
+		// a map lookup in the region keyed by something else than the name is the evidence
+		other := ""
+		if !ok {
+			for _, di := range fw.DeepInstrs(fn, nil) {
+				lk, isLk := di.Instr.(*ssa.Lookup)
+				if !isLk {
+					continue
+				}
+				if _, isMap := lk.X.Type().Underlying().(*types.Map); !isMap {
+					continue
+				}
+				switch fw.Derives3In(lk.Index, di.Fr, fw.FlowSpec{IsSourceIn: func(v ssa.Value, fr *fw.Frame) bool { return fr == nil && isParam(v, fn, 0) }}) {
+				case fw.Yes:
+					ok = true
+				case fw.No:
+					if _, isC := lk.Index.(*ssa.Const); isC {
+						other = fw.SigIn(di.Fr, lk.Index)
+					}
+				}
+			}
+		}
+		switch {
+		case ok:
+			c.Ok("5 ListKeyIDs", "ListKeyIDs lists signatures[signingName]", c.P.Pos(fn.Pos()), "")
+		case other != "":
+			c.Fail("5 ListKeyIDs", "ListKeyIDs lists signatures[signingName]", c.P.Pos(fn.Pos()), "key ids are read from the entry "+other+", not from the entry of the signing name parameter")
+		default:
+			c.Undecided("5 ListKeyIDs", "ListKeyIDs lists signatures[signingName]", "no map lookup keyed by the signing name parameter was recognised in ListKeyIDs and its helpers")
+		}
 	}
 }
 
